@@ -9,6 +9,7 @@
 // semantics, footprint), C03 (policy protocol, page accounting, poisoning) and C04 (map failure).
 #include "../engine/seqmc.hpp"
 #include "../engine/enumerate.hpp"
+#include <functional>
 #include <frg/slab.hpp>
 #include <algorithm>
 #include <map>
@@ -27,12 +28,13 @@ static constexpr size_t ARENA_SIZE = 64u << 20;   // two zones of 32 MiB
 static unsigned char *arena_base = nullptr;
 static int g_mutex_held = 0;
 static const char *g_fail_prop = "C04";   // property that violations of failing-map operations are attributed to (C02/C03/C04, whichever is being checked)
+static const char *g_lock_prop = "C04";   // property that lock-discipline violations are attributed to (C05 when the re-entrant policy is being checked)
 static bool g_poison_first = false;   // running for C03: after a failed map() the poison invariants are checked before the C04 oracle
 
 struct CountingMutex {
 	bool held = false;
-	void lock() { if(held) note("C04", "mutex:relock", "a pool mutex was locked while already held (self-deadlock with a real mutex)"); held = true; g_mutex_held++; }
-	void unlock() { if(!held) note("C04", "mutex:unlock-free", "a pool mutex was unlocked while not held"); else g_mutex_held--; held = false; }
+	void lock() { if(held) note(g_lock_prop, "mutex:relock", "a pool mutex was locked while already held (self-deadlock with a real mutex)"); held = true; g_mutex_held++; }
+	void unlock() { if(!held) note(g_lock_prop, "mutex:unlock-free", "a pool mutex was unlocked while not held"); else g_mutex_held--; held = false; }
 };
 
 struct Region { uintptr_t base; size_t len; size_t align; int serial; long pages; bool large; };
@@ -45,6 +47,8 @@ struct PolicyState {
 	std::vector<Region> taken, returned;       // during the current op
 	bool poisoning = false;
 	size_t page = 0, skew = 0, sb = 0, slab_reservation = 0;
+	std::function<void()> reenter;             // the policy uses the pool itself from inside its first map() of this op (C05: it may)
+	bool reentered = false;
 };
 static PolicyState PS;
 static unsigned char *g_shadow = nullptr;       // 1 = poisoned, indexed by arena offset (only with poisoning)
@@ -53,6 +57,7 @@ static constexpr size_t SLACK = 16 << 10;      // poisoned guard zone past the h
 static uintptr_t arena_map(size_t len, size_t align, size_t skew) {
 	PS.maps++; PS.maps_this_op++;
 	if(g_mutex_held) note("C05", "policy:map-under-lock", "Policy::map called while a pool mutex is held");
+	if(PS.reenter && !PS.reentered) { PS.reentered = true; int keep = PS.maps_this_op; PS.reenter(); PS.maps_this_op = keep; }
 	if(PS.fail_at >= 0 && PS.maps_this_op == PS.fail_at + 1) return 0;
 	// first fit: lowest base with base % align == skew, not overlapping any region.  Reservations of
 	// exactly the slab reservation size are placed in the lower half of the arena, everything else in
@@ -170,7 +175,8 @@ struct SlabHarness : HarnessBase {
 	std::map<size_t, int> slabs_of;             // class size -> slabs mapped so far
 	std::map<uintptr_t, long> region_pages;     // region base -> pages credited
 
-	SlabHarness(int L_, size_t skew_, int fail_budget_, std::vector<size_t> sizes_) : L(L_), skew(skew_), fail_budget(fail_budget_), sizes(std::move(sizes_)) {
+	SlabHarness(int L_, size_t skew_, int fail_budget_, std::vector<size_t> sizes_, bool reentrant_ = false) : L(L_), skew(skew_), fail_budget(fail_budget_), sizes(std::move(sizes_)) {
+		reentrant = reentrant_;
 		if(!arena_base) {
 			arena_base = (unsigned char *)mmap(nullptr, ARENA_SIZE + (8u << 20) + SLACK, PROT_READ | PROT_WRITE, MAP_PRIVATE | MAP_ANONYMOUS | MAP_NORESERVE, -1, 0);
 			arena_base = (unsigned char *)(((uintptr_t)arena_base + (4u << 20) - 1) & ~(uintptr_t)((4u << 20) - 1));
@@ -230,7 +236,8 @@ struct SlabHarness : HarnessBase {
 	}
 	void reset() { fresh_world(); }
 
-	enum { ALLOC, FREE, DEALLOC, REALLOC, REALLOC_NULL, ALLOC_FAIL, REALLOC_FAIL, REALLOC_NULL_FAIL };
+	enum { ALLOC, FREE, DEALLOC, REALLOC, REALLOC_NULL, ALLOC_FAIL, REALLOC_FAIL, REALLOC_NULL_FAIL, ALLOC_RF, ALLOC_FAIL_RF };
+	bool reentrant = false;   // alphabet includes allocations during whose map() call the policy frees a live block of the pool
 	static uint32_t mk(uint32_t k, uint32_t i, uint32_t si) { return k | i << 8 | si << 16; }
 	void ops(std::vector<uint32_t> &out) {
 		for(uint32_t si = 0; si < sizes.size(); si++) {
@@ -238,6 +245,11 @@ struct SlabHarness : HarnessBase {
 				out.push_back(mk(ALLOC, 0, si));
 				if(si == 1) out.push_back(mk(REALLOC_NULL, 0, si));
 				if(fails_used < fail_budget) out.push_back(mk(ALLOC_FAIL, 0, si));
+			}
+			// the policy frees live block i from inside map() (with map succeeding, and with map failing)
+			if(reentrant && (int)live.size() <= L) for(uint32_t i = 0; i < live.size(); i++) {
+				out.push_back(mk(ALLOC_RF, i, si));
+				if(fails_used < fail_budget) out.push_back(mk(ALLOC_FAIL_RF, i, si));
 			}
 		}
 		for(uint32_t i = 0; i < live.size(); i++) {
@@ -248,10 +260,11 @@ struct SlabHarness : HarnessBase {
 			}
 		}
 	}
-	std::string show_class(uint32_t op) { static const char *nm[] = {"allocate", "free", "deallocate", "realloc", "realloc(null)", "allocate[map fails]", "realloc[map fails]", "realloc(null)[map fails]"}; return std::string("slab.") + nm[op & 0xff]; }
+	std::string show_class(uint32_t op) { static const char *nm[] = {"allocate", "free", "deallocate", "realloc", "realloc(null)", "allocate[map fails]", "realloc[map fails]", "realloc(null)[map fails]", "allocate[policy frees a block inside map]", "allocate[policy frees a block inside map, map fails]"}; return std::string("slab.") + nm[op & 0xff]; }
 	std::string show(uint32_t op) {
 		char b[96]; uint32_t k = op & 0xff, i = (op >> 8) & 0xff, si = op >> 16;
 		if(k == ALLOC || k == REALLOC_NULL || k == ALLOC_FAIL) snprintf(b, sizeof b, "%s(%zu)", show_class(op).c_str(), sizes[si]);
+		else if(k == ALLOC_RF || k == ALLOC_FAIL_RF) snprintf(b, sizeof b, "%s(%zu; frees b%u)", show_class(op).c_str(), sizes[si], i);
 		else if(k == FREE || k == DEALLOC) snprintf(b, sizeof b, "%s(b%u)", show_class(op).c_str(), i);
 		else snprintf(b, sizeof b, "%s(b%u,%zu)", show_class(op).c_str(), i, sizes[si]);
 		return b;
@@ -299,7 +312,7 @@ struct SlabHarness : HarnessBase {
 		bool failing = PS.fail_at >= 0 && PS.maps_this_op > PS.fail_at;
 		const char *P3 = failing ? g_fail_prop : "C03", *P2 = failing ? g_fail_prop : "C02";
 		PS.fail_at = -1;
-		if(g_mutex_held) { g_mutex_held = 0; fail("C04", "mutex-left-locked", "a pool mutex is still locked after " + what + " returned"); }
+		if(g_mutex_held) { g_mutex_held = 0; fail(g_lock_prop, "mutex-left-locked", "a pool mutex is still locked after " + what + " returned"); }
 		size_t used = pool().numUsedPages();
 		if(used > (size_t(1) << 40)) fail(P3, "pages-underflow", "numUsedPages() wrapped around");
 		long delta = (long)used - (long)used_before;
@@ -324,6 +337,7 @@ struct SlabHarness : HarnessBase {
 				// footprint (C02): a new slab only when every slab of the class is full
 				size_t cls = 0; for(auto &kv : per_slab) if(kv.first >= (req ? req : 1)) { cls = kv.first; break; }
 				size_t live_in_class = 0; for(auto &b : live) if(b.size == cls && !b.large) live_in_class++;
+				if(PS.reentered && reentrant_freed.p && reentrant_freed.size == cls && !reentrant_freed.large) live_in_class++;   // it was live when map() was called
 				// (the new block itself is not yet in `live`)
 				if(live_in_class != (size_t)slabs_of[cls] * per_slab[cls])
 					fail(P2, "footprint:slab-mapped-while-free-objects", "a new slab of class " + std::to_string(cls) + " was mapped while " + std::to_string(slabs_of[cls]) + " slab(s) hold only " + std::to_string(live_in_class) + " live blocks (" + std::to_string(per_slab[cls]) + " fit in one)");
@@ -350,6 +364,42 @@ struct SlabHarness : HarnessBase {
 				return;
 			}
 			// the op did not need to map: behaves like the ordinary op (counted as no deviation)
+		}
+		if(!p) fail("C01", "null-without-failure", "allocate returned null although map() did not fail");
+		check_new_block((uintptr_t)p, req, (size_t)-1);
+		Block b{(uintptr_t)p, req, pool().get_size(p), pool().get_size(p) > max_small};
+		if(poisoning) check_unpoisoned(b);
+		fill(b);
+		live.push_back(b);
+		verify_patterns("alloc");
+	}
+	// allocate(req) during whose (first) map() call the policy frees live block i through the pool's public interface -
+	// C05: "map and unmap are invoked only while the calling thread holds none of the pool's locks, so a policy may itself
+	// use the pool".  With fail_at >= 0 that map() call then fails (C04: nothing left locked, the pool keeps working).
+	Block reentrant_freed{0, 0, 0, false};
+	void do_alloc_reentrant(size_t req, uint32_t i, int fail_at) {
+		Block victim = live[i];
+		memset((void *)victim.p, 0, victim.req);
+		live.erase(live.begin() + i);
+		reentrant_freed = victim;
+		PS.reentered = false;
+		PS.reenter = [this, victim] { pool().free((void *)victim.p); };
+		struct Clear { SlabHarness *h; ~Clear() { PS.reenter = nullptr; PS.reentered = false; h->reentrant_freed = Block{0, 0, 0, false}; } } clear{this};
+		begin_op(fail_at);
+		void *p = pool().allocate(req);
+		bool failed = fail_at >= 0 && PS.maps_this_op > fail_at;
+		bool did = PS.reentered;
+		if(did && !victim.large) { auto it = slabs_of.find(victim.size); (void)it; }
+		end_op("allocate", true, req, p != nullptr);
+		if(!did) {
+			// the request was served without mapping: the policy was never entered, the victim is still allocated
+			live.push_back(victim); fill(victim);
+		} else if(victim.large && region_of(victim.p, 1)) fail("C03", "protocol:large-not-unmapped", "a large block freed by the policy from inside map() did not return its region");
+		if(failed) {
+			fails_used++;
+			// a retry that finds the block the policy just freed would be as good as null; anything else must be null
+			if(p && !(did && (uintptr_t)p == victim.p)) fail(g_fail_prop, "alloc-nonnull-after-map-failure", "allocate returned a block although map() failed");
+			if(!p) { verify_patterns("failed-alloc"); return; }
 		}
 		if(!p) fail("C01", "null-without-failure", "allocate returned null although map() did not fail");
 		check_new_block((uintptr_t)p, req, (size_t)-1);
@@ -449,6 +499,8 @@ struct SlabHarness : HarnessBase {
 		case DEALLOC: do_free(i, true); break;
 		case REALLOC: do_realloc(i, sizes[si], -1); break;
 		case REALLOC_FAIL: do_realloc(i, sizes[si], 0); break;
+		case ALLOC_RF: do_alloc_reentrant(sizes[si], i, -1); break;
+		case ALLOC_FAIL_RF: do_alloc_reentrant(sizes[si], i, 0); break;
 		}
 	}
 	void check_state() {
@@ -502,9 +554,9 @@ using CfgDefA   = ArenaPolicy<4096, 1 << 18, 1 << 18, 13, true, true>;   // defa
 using CfgDefU   = ArenaPolicy<4096, 1 << 18, 1 << 18, 13, false, false>;
 
 template<class Cfg>
-static Instance slab_inst(const std::string &name, int L, size_t skew, int fails, std::vector<size_t> sizes, int depth = 1 << 30) {
+static Instance slab_inst(const std::string &name, int L, size_t skew, int fails, std::vector<size_t> sizes, int depth = 1 << 30, bool reentrant = false) {
 	BfsOptions o; o.max_depth = depth;
-	return bfs_instance<SlabHarness<Cfg>>(name, o, L, skew, fails, sizes);
+	return bfs_instance<SlabHarness<Cfg>>(name, o, L, skew, fails, sizes, reentrant);
 }
 
 // Size sweep (engine C): from a few base states every request size from 0 up to 3 superblocks + 1 page
@@ -591,6 +643,7 @@ static Instance sweep_inst(const std::string &name, size_t skew, bool thorough, 
 #else
 #define IN3(x)
 #endif
+static const int FIX_DEPTH = 1 << 30;
 static std::vector<Instance> instances(const std::string &tier) {
 	bool th = tier == "thorough";
 	const char *want = getenv("VERIF_PROP");
@@ -598,8 +651,20 @@ static std::vector<Instance> instances(const std::string &tier) {
 	bool c03 = want && std::string(want) == "C03";
 	g_poison_first = c03;
 	bool c02 = want && std::string(want) == "C02";
+	bool c01 = want && std::string(want) == "C01";
 	if(c02 || c03) g_fail_prop = c02 ? "C02" : "C03";
+	if(c01) g_fail_prop = "C01";
 	std::vector<Instance> v;
+	bool c05 = want && std::string(want) == "C05";
+	if(c05) {
+		// C05, sequential part: "the policy may itself use the pool" - the policy frees a live block of the pool from inside
+		// map(), with map() succeeding or failing; any pool lock still held at that point is a self-deadlock
+		g_lock_prop = "C05"; g_fail_prop = "C05";
+		IN0(v.push_back(slab_inst<CfgTinyA>("tinyA-L3-policy-frees-inside-map", 3, 0, 1, {8, 1024, 1025}, th ? 6 : 5, true));)
+		IN0(v.push_back(slab_inst<CfgTinyA>("tinyA-L4-one-class-policy-frees-inside-map", 4, 0, 1, {1024}, FIX_DEPTH, true));)
+		IN1(v.push_back(slab_inst<CfgTinyU>("tinyU-L3-policy-frees-inside-map", 3, 256, 1, {600, 1025}, th ? 6 : 5, true));)
+		return v;
+	}
 	std::vector<size_t> tiny = {0, 8, 9, 600, 1024, 1025, 4097};
 	std::vector<size_t> split = {0, 16, 300, 512, 513, 4000};
 	std::vector<size_t> odd = {8, 5000, 8192, 8193, 40000};
@@ -625,6 +690,15 @@ static std::vector<Instance> instances(const std::string &tier) {
 	if(c02) {   // "realloc frees the old block only when it moved" / "bytes of a live block change only by their owner" also across failing map() calls
 		IN0(v.push_back(slab_inst<CfgTinyA>("tinyA-L3-contents-after-map-failure", 3, 0, 1, tiny, th ? 5 : 4));)
 		IN2(v.push_back(slab_inst<CfgOdd>("odd-L2-contents-after-map-failure", 2, 0, 1, odd, th ? 4 : 3));)
+	}
+	if(c04) {   // map() fails while the policy, inside that very call, frees a block of the class being allocated (C05 allows the policy to use the pool)
+		IN0(v.push_back(slab_inst<CfgTinyA>("tinyA-L3-policy-frees-inside-failing-map", 3, 0, th ? 2 : 1, {8, 1024, 1025}, th ? 6 : 5, true));)
+		IN0(v.push_back(slab_inst<CfgTinyA>("tinyA-L4-one-class-policy-frees-inside-failing-map", 4, 0, 1, {1024}, FIX_DEPTH, true));)
+		IN2(v.push_back(slab_inst<CfgOdd>("odd-L2-policy-frees-inside-failing-map", 2, 0, 1, {8, 8192, 8193}, th ? 5 : 4, true));)
+	}
+	if(c01) {   // live blocks stay disjoint and inside mapped memory also when map() fails (a failed realloc must leave its source live)
+		IN0(v.push_back(slab_inst<CfgTinyA>("tinyA-L3-validity-after-map-failure", 3, 0, 1, tiny, th ? 5 : 4));)
+		IN2(v.push_back(slab_inst<CfgOdd>("odd-L2-validity-after-map-failure", 2, 0, 1, odd, th ? 4 : 3));)
 	}
 	if(c03) {   // the poison protocol must also hold across failing map() calls
 		IN0(v.push_back(slab_inst<CfgTinyA>("tinyA-L3-poison-after-map-failure", 3, 0, 1, tiny, th ? 5 : 4));)
